@@ -81,7 +81,8 @@ def run(sid, props, tier="quick"):
         rc, o = sh(["git", "-C", "/repo", "apply", "-3", os.path.join(sdir, "patch.diff")])
     if rc != 0:
         print(f"[{sid}] patch does not apply to /repo: {o}")
-        sh("git -C /repo checkout -- .")
+        sh("git -C /repo reset -q")
+        sh("git -C /repo checkout HEAD -- .")
         return {}
     results = {}
     try:
@@ -95,8 +96,8 @@ def run(sid, props, tier="quick"):
             if rc not in (0, 1):
                 print(o[-1500:])
     finally:
-        sh("git -C /repo checkout -- .")
         sh("git -C /repo reset -q")
+        sh("git -C /repo checkout HEAD -- .")
         assert repo_clean()
     mp = os.path.join(sdir, "meta.json")
     m = json.load(open(mp))
@@ -105,8 +106,37 @@ def run(sid, props, tier="quick"):
     return results
 
 
+def reverify(sid):
+    """Re-validate a stored mutant against the current /repo HEAD in a throw-away worktree."""
+    sdir = os.path.join(ROOT, "seeded", sid)
+    wt = f"/tmp/wt-reverify-{os.getpid()}"
+    sh(f"git -C /repo worktree add -q {wt} HEAD")
+    try:
+        shutil.copy("/repo/spec_classes/_version.py", f"{wt}/spec_classes/_version.py")
+        env = {"PYTHONPATH": wt, "PYTHONDONTWRITEBYTECODE": "1"}
+        rc0, o0 = sh([PY, os.path.join(sdir, "demo.py")], cwd=wt, env=env)
+        rca, oa = sh(["git", "apply", os.path.join(sdir, "patch.diff")], cwd=wt)
+        rct, ot = sh([PY, "-m", "pytest", "-q", "-p", "no:cacheprovider", "-x"], cwd=wt, env=env)
+        rc1, o1 = sh([PY, os.path.join(sdir, "demo.py")], cwd=wt, env=env)
+        tests_line = ot.strip().splitlines()[-1] if ot.strip() else ""
+        ok = rc0 == 0 and rca == 0 and rct == 0 and rc1 != 0
+        print(f"[{sid}] on HEAD {sh('git -C /repo log --format=%h -1')[1].strip()}: demo clean rc={rc0}, apply rc={rca}, tests {tests_line!r}, demo with mutant rc={rc1} -> {'VALID' if ok else 'INVALID'}")
+        if not ok:
+            print(oa[-300:], o0[-300:], o1[-300:])
+        m = json.load(open(os.path.join(sdir, "meta.json")))
+        m.setdefault("reverified", []).append({"head": sh("git -C /repo log --format=%h -1")[1].strip(), "valid": ok, "tests": tests_line, "demo_clean_rc": rc0, "demo_mutant_rc": rc1})
+        json.dump(m, open(os.path.join(sdir, "meta.json"), "w"), indent=1)
+        return ok
+    finally:
+        sh(f"git -C /repo worktree remove --force {wt}")
+
+
 def main():
     cmd = sys.argv[1]
+    if cmd == "reverify":
+        for sid in sys.argv[2:] or sorted(os.listdir(os.path.join(ROOT, "seeded"))):
+            reverify(sid)
+        return
     if cmd == "verify":
         outname, i, props = sys.argv[2], sys.argv[3], sys.argv[4:]
         sid = verify(outname, i, props)
